@@ -135,6 +135,17 @@ Proof.
   apply N.eqb_neq in E. pose proof (nulfree_repN ch n E) as Fp.
   apply nulfree_indent_fold; trivial. destruct ((nthN 0 l =? 13) || (nthN 0 l =? 10)); [exact Fp|constructor].
 Qed.
+Lemma nulfree_esc_fold seps esc pe pc l acc : esc <> 0 -> nulfree l -> nulfree acc -> nulfree (esc_fold seps esc pe pc l acc).
+Proof.
+  intros He Fl. revert pe pc acc. induction Fl as [|c t Hc Ht IH]; intros pe pc acc Fa; cbn [esc_fold]; [exact Fa|].
+  apply IH. apply nulfree_app; split; [|constructor; [exact Hc|constructor]].
+  destruct (negb pe && _); [|exact Fa]. apply nulfree_app; split; [exact Fa|constructor; [exact He|constructor]].
+Qed.
+Lemma nulfree_escaped l seps esc : nulfree l -> nulfree (l0_escaped l seps esc).
+Proof.
+  intros F. unfold l0_escaped. destruct (esc =? 0) eqn:E; [exact F|]. apply N.eqb_neq in E.
+  destruct (_ && _); [exact F|]. apply nulfree_esc_fold; trivial. constructor.
+Qed.
 Lemma nulfree_clit l c : nulfree l -> carg_ok c -> nulfree (clit_of l c).
 Proof. intros H C. destruct c; cbn [clit_of]; [constructor|apply C|now apply nulfree_dropN]. Qed.
 
@@ -213,6 +224,7 @@ Proof.
   - inversion H; subst; clear H; cbn [out0_nulfree]. now apply nulfree_strip_ch_prefix_nc.
   - inversion H; subst; clear H; cbn [out0_nulfree]. destruct A as [Aa As]. apply nulfree_with_word; trivial. now apply lit_nulfree.
   - inversion H; subst; clear H; cbn [out0_nulfree]. now apply nulfree_indented.
+  - inversion H; subst; clear H; cbn [out0_nulfree]. now apply nulfree_escaped.
 Qed.
 
 (* the state after any level-0 step is NUL-free again *)
